@@ -36,7 +36,8 @@ def s1(ctx, rep):
         raise AnchorError("StoppingRungSystem.on_task_report: rung.add / _task_continues sites not found")
     (an, ac), (bn, bc) = adds[0], cmps[0]
     same = U(ac.func.value) == U(kwarg(bc, "rung", 2))
-    entry = ac.args[0]
+    from ..engine import deref
+    entry = deref(f, ac.args[0])
     val_ok = isinstance(entry, ast.Call) and fn_name(entry) == "RungEntry" and U(kwarg(entry, "metric_val", 1)) == U(kwarg(bc, "metric_val", 1)) \
         and U(kwarg(entry, "trial_id", 0)) == U(kwarg(bc, "trial_id", 0))
     p = cfg.path(cfg.entry, bn, deleted={an})
@@ -52,7 +53,11 @@ def s2(ctx, rep):
     an, ac = ctx.calls_in(f, method="add", recv="Rung")[0]
     rung = U(ac.func.value)
     at = ctx.facts(f).at(an)
-    tid = U(kwarg(ac.args[0], "trial_id", 0))
+    from ..engine import deref
+    entry = deref(f, ac.args[0])
+    if not isinstance(entry, ast.Call):
+        raise AnchorError("StoppingRungSystem.on_task_report: rung.add argument is not a RungEntry(...) value")
+    tid = U(kwarg(entry, "trial_id", 0))
     g1 = any(a[0] == "in" and a[3] is False and a[1] == tid and a[2] == rung for a in at)
     rep.put(g1, "S2", "guarded_by", "StoppingRungSystem.on_task_report: rung.add | trial not yet in the rung", f, ac, "",
             "a trial can be inserted into the same rung twice (it re-reports the level after a restart): the rung statistics count it twice")
@@ -237,9 +242,11 @@ def s6(ctx, rep):
         and isinstance(d.get("milestone_reached"), ast.Constant) and d["milestone_reached"].value is True
     rep.put(ok, "S6", "agreement", "HyperbandBracketManager.on_task_report: default answer is 'stop, milestone reached'", h, None, "")
     cfg = cfg_of(h)
-    upd = [n for n in cfg.nodes if any(isinstance(x, ast.Call) and fn_name(x) == "update" and U(x.func.value) == dv for x in cfg.node_walk(n.id))
-           and any(isinstance(x, ast.Call) and fn_name(x) == "on_task_report" for x in cfg.node_walk(n.id))]
-    ok = len(upd) == 1 and ctx.facts(h).at(upd[0].id) >= {("lt", "result[self._resource_attr]", "self._max_t")}
+    # the node that asks the rung system (its answer is merged into the default answer)
+    upd = [n for n in cfg.nodes if any(isinstance(x, ast.Call) and fn_name(x) == "on_task_report" for x in cfg.node_walk(n.id))]
+    mrg = [n for n in cfg.nodes if any(isinstance(x, ast.Call) and fn_name(x) == "update" and U(x.func.value) == dv for x in cfg.node_walk(n.id))]
+    ok = len(upd) == 1 and len(mrg) == 1 and ctx.facts(h).at(upd[0].id) >= {("lt", "result[self._resource_attr]", "self._max_t")} \
+        and ctx.facts(h).at(mrg[0].id) >= {("lt", "result[self._resource_attr]", "self._max_t")}
     rep.put(ok, "S6", "guarded_by", "HyperbandBracketManager.on_task_report: the rung system is consulted only below max_t", h, None, "",
             "a report at (or beyond) max_t can be answered 'continue' by the rung system: the trial runs past the maximum resource")
     s = P.method("HyperbandScheduler", "on_trial_result")
